@@ -1,5 +1,276 @@
+//! `lengths` (C11), `weak` (C13), `names` (C19), `zeroize` (C16).
+
 use super::*;
-pub fn lengths(_cx: &mut Ctx, _args: &Args, _rng: &mut Rng) -> i32 { 2 }
-pub fn weak(_cx: &mut Ctx, _args: &Args, _rng: &mut Rng) -> i32 { 2 }
-pub fn names(_cx: &mut Ctx, _args: &Args, _rng: &mut Rng) -> i32 { 2 }
-pub fn zeroize(_cx: &mut Ctx, _args: &Args, _rng: &mut Rng) -> i32 { 2 }
+use crate::rng::{bit_walk, byte_walk, corners, mix};
+
+fn probe_blocks(rng: &mut Rng, bs: usize) -> Vec<Vec<u8>> {
+    vec![(0..bs).map(|i| (i * 17 + 1) as u8).collect(), rng.bytes(bs)]
+}
+
+/// observe an instance on probe blocks (both directions where available)
+fn observe(cx: &mut Ctx, id: u64, inst: &dyn Inst, probes: &[Vec<u8>]) {
+    for p in probes {
+        cx.one(id, inst, Dir::Enc, Shape::B2b, p);
+        cx.one(id, inst, Dir::Dec, Shape::B2b, p);
+    }
+}
+
+/// every type x every slice length 0..=maxlen; constructor pairs for accepted lengths
+pub fn lengths(cx: &mut Ctx, args: &Args, rng: &mut Rng) -> i32 {
+    let maxlen = args.num("maxlen", 300) as usize;
+    for ti in cx.select(args) {
+        let (name, bs, ksz) = (cx.types[ti].name, cx.types[ti].bs, cx.types[ti].key_size);
+        let mut r = rng.fork(name);
+        cx.reset(name);
+        for len in 0..=maxlen {
+            let key = match r.below(4) {
+                0 => vec![0u8; len],
+                1 => vec![0xFFu8; len],
+                _ => r.bytes(len),
+            };
+            let probes = probe_blocks(&mut r, bs);
+            if let Some((id, inst)) = cx.construct(ti, "slice", &key, "len-sweep") {
+                observe(cx, id, inst.as_ref(), &probes);
+                // the fixed-size constructor on the same bytes
+                if len == ksz {
+                    if let Some((id2, i2)) = cx.construct(ti, "new", &key, "len-sweep") {
+                        observe(cx, id2, i2.as_ref(), &probes);
+                        cx.drop_inst(id2, i2);
+                    }
+                }
+                // explicitly padded / re-parameterised twins (same class by Canon)
+                match name {
+                    "Rc2" => {
+                        let eff = (8 * len) as u16;
+                        if let Some((id2, i2)) = cx.construct_extra(ti, "eff", &key, &eff.to_le_bytes(), "twin") {
+                            observe(cx, id2, i2.as_ref(), &probes);
+                            cx.drop_inst(id2, i2);
+                        }
+                    }
+                    "Cast5" if len > 10 && len < 16 => {
+                        let mut k = key.clone();
+                        k.resize(16, 0);
+                        if let Some((id2, i2)) = cx.construct(ti, "slice", &k, "twin") {
+                            observe(cx, id2, i2.as_ref(), &probes);
+                            cx.drop_inst(id2, i2);
+                        }
+                    }
+                    "Cast6" if len < 32 => {
+                        let mut k = key.clone();
+                        k.resize(32, 0);
+                        if let Some((id2, i2)) = cx.construct(ti, "slice", &k, "twin") {
+                            observe(cx, id2, i2.as_ref(), &probes);
+                            cx.drop_inst(id2, i2);
+                        }
+                    }
+                    "Serpent" if len < 32 => {
+                        let mut k = key.clone();
+                        k.push(1);
+                        k.resize(32, 0);
+                        if let Some((id2, i2)) = cx.construct(ti, "slice", &k, "twin") {
+                            observe(cx, id2, i2.as_ref(), &probes);
+                            cx.drop_inst(id2, i2);
+                        }
+                    }
+                    _ => {}
+                }
+                cx.drop_inst(id, inst);
+            }
+        }
+        cx.end();
+    }
+    0
+}
+
+const DES_WEAK: [[u8; 8]; 64] = include!("des_weak.in");
+
+fn weak_ev(cx: &mut Ctx, ti: usize, key: &[u8], kc: &str) {
+    let t = &cx.types[ti];
+    let (name, f) = (t.name, t.weak);
+    let r = catch(|| f(key));
+    let out = match r {
+        Ok(true) => "weak",
+        Ok(false) => "ok",
+        Err(_) => "panic",
+    };
+    cx.emit(json!({"ev":"weak","type":name,"key":key,"out":out,"kc":kc}));
+}
+
+/// weak-key screening: `weak_key_test` on structured + random keys; `new_checked` vs `new`
+pub fn weak(cx: &mut Ctx, args: &Args, rng: &mut Rng) -> i32 {
+    let nrand = args.num("random", 50) as usize;
+    let parity_all = args.get("parity") == Some("all");
+    for ti in cx.select(args) {
+        let (name, bs, ksz) = (cx.types[ti].name, cx.types[ti].bs, cx.types[ti].key_size);
+        let mut r = rng.fork(name);
+        cx.reset(name);
+        let mut keys: Vec<(String, Vec<u8>)> = Vec::new();
+        for (c, k) in corners(ksz) {
+            keys.push((c.to_string(), k));
+        }
+        for _ in 0..nrand {
+            keys.push(("random".into(), r.bytes(ksz)));
+        }
+        match cx.types[ti].family {
+            "AES" => {
+                // every single-nonzero-byte key at every position (exhaustive over that family)
+                for i in 0..ksz {
+                    keys.push(("bytewalk".into(), byte_walk(ksz, i, 1 + r.below(255) as u8)));
+                    keys.push(("bitwalk".into(), bit_walk(ksz, 8 * i + r.below(8))));
+                }
+                // zero upper half with random lower half, and near misses
+                for _ in 0..8 {
+                    let mut k = r.bytes(ksz);
+                    for b in k.iter_mut().take(ksz / 2) {
+                        *b = 0;
+                    }
+                    keys.push(("upper-zero".into(), k.clone()));
+                    k[ksz / 2 - 1] = 1 << r.below(8);
+                    keys.push(("upper-last-bit".into(), k.clone()));
+                    k[ksz / 2 - 1] = 0;
+                    k[r.below(ksz / 2)] = 0x80;
+                    keys.push(("upper-one-bit".into(), k));
+                }
+            }
+            "DES" => {
+                let parts = ksz / 8;
+                let masks: Vec<u8> = if parity_all { (0..=255).collect() } else { vec![0, 0xFF, 0x01, 0x80, r.next() as u8, r.next() as u8] };
+                let flip = |k: &[u8], m: u8| -> Vec<u8> { k.iter().enumerate().map(|(i, b)| b ^ ((m >> i) & 1)).collect() };
+                for (wi, w) in DES_WEAK.iter().enumerate() {
+                    if name == "Des" {
+                        for &m in &masks {
+                            keys.push(("weak-parity".into(), flip(w, m)));
+                        }
+                        // the 56 single-key-bit neighbours must pass
+                        let nb = if parity_all { 56 } else { 4 };
+                        for j in 0..nb {
+                            let bit = if parity_all { j } else { r.below(56) };
+                            let mut k = w.to_vec();
+                            k[bit / 7] ^= 0x80 >> (bit % 7);
+                            keys.push(("weak-neighbour".into(), k));
+                        }
+                    } else {
+                        // a weak part in each position, other parts random (and distinct)
+                        let pos = wi % parts;
+                        let mut k = r.bytes(ksz);
+                        let m = masks[wi % masks.len()];
+                        k[8 * pos..8 * pos + 8].copy_from_slice(&flip(w, m));
+                        keys.push(("weak-part".into(), k));
+                    }
+                }
+                if name != "Des" {
+                    // equal parts in each pair, with and without parity differences; near misses
+                    for a in 0..parts {
+                        for b in (a + 1)..parts {
+                            for _ in 0..4 {
+                                let mut k = r.bytes(ksz);
+                                let pa: Vec<u8> = k[8 * a..8 * a + 8].to_vec();
+                                k[8 * b..8 * b + 8].copy_from_slice(&pa);
+                                keys.push(("equal-parts".into(), k.clone()));
+                                let m = r.next() as u8 | 1;
+                                let pb = flip(&pa, m);
+                                k[8 * b..8 * b + 8].copy_from_slice(&pb);
+                                keys.push(("equal-mod-parity".into(), k.clone()));
+                                let bit = r.below(56);
+                                k[8 * b + bit / 7] ^= 0x80 >> (bit % 7);
+                                keys.push(("near-equal".into(), k));
+                            }
+                        }
+                    }
+                }
+            }
+            _ => {}
+        }
+        let probes = probe_blocks(&mut r, bs);
+        for (j, (kc, key)) in keys.iter().enumerate() {
+            weak_ev(cx, ti, key, kc);
+            // new_checked vs new (observed) for a sample of keys
+            if j % 7 == 0 || kc == "zero" {
+                let a = cx.construct(ti, "checked", key, kc);
+                if let Some((id, inst)) = a {
+                    observe(cx, id, inst.as_ref(), &probes);
+                    if let Some((id2, i2)) = cx.construct(ti, "new", key, kc) {
+                        observe(cx, id2, i2.as_ref(), &probes);
+                        cx.drop_inst(id2, i2);
+                    }
+                    cx.drop_inst(id, inst);
+                }
+            }
+        }
+        cx.end();
+    }
+    0
+}
+
+/// Debug and AlgorithmName text
+pub fn names(cx: &mut Ctx, args: &Args, rng: &mut Rng) -> i32 {
+    let nkeys = args.num("keys", 4) as usize;
+    for ti in cx.select(args) {
+        let (name, ksz) = (cx.types[ti].name, cx.types[ti].key_size);
+        let mut r = rng.fork(name);
+        cx.reset(name);
+        let alg = catch(cx.types[ti].alg);
+        match alg {
+            Ok(Some(s)) => cx.emit(json!({"ev":"algname","type":name,"text":ev::text(&s),"text_s":s,"outcome":"ok"})),
+            Ok(None) => cx.emit(json!({"ev":"algname","type":name,"text":[],"text_s":"","outcome":"absent"})),
+            Err(_) => cx.emit(json!({"ev":"algname","type":name,"text":[],"text_s":"","outcome":"panic"})),
+        }
+        for (kc, key) in mix(&mut r, ksz, nkeys) {
+            if let Some((id, inst)) = cx.construct(ti, "new", &key, &kc) {
+                let d = catch(|| inst.debug());
+                match d {
+                    Ok(Some(s)) => cx.emit(json!({"ev":"debug","id":id,"type":name,"text":ev::text(&s),"text_s":s,"outcome":"ok"})),
+                    Ok(None) => cx.emit(json!({"ev":"debug","id":id,"type":name,"text":[],"text_s":"","outcome":"absent"})),
+                    Err(_) => cx.emit(json!({"ev":"debug","id":id,"type":name,"text":[],"text_s":"","outcome":"panic"})),
+                }
+                cx.drop_inst(id, inst);
+            }
+        }
+        cx.end();
+    }
+    0
+}
+
+/// storage images around drop_in_place
+pub fn zeroize(cx: &mut Ctx, args: &Args, rng: &mut Rng) -> i32 {
+    let nkeys = args.num("keys", 4) as usize;
+    let force_off = args.get("force-off") == Some("1");
+    for ti in cx.select(args) {
+        let (name, ksz, size) = (cx.types[ti].name, cx.types[ti].key_size, cx.types[ti].size_of);
+        let mut r = rng.fork(name);
+        let f = cx.types[ti].zeroize_probe;
+        for route in Route::ALL {
+            // is the route available for this type?
+            let k0 = r.bytes(ksz);
+            super::special::set_force_off(force_off);
+            let avail = catch(|| f(&k0, 0x11, route)).ok().flatten().is_some();
+            if !avail {
+                super::special::set_force_off(false);
+                continue;
+            }
+            cx.reset(name);
+            let mut keys: Vec<Vec<u8>> = vec![vec![0u8; ksz], vec![0xFFu8; ksz]];
+            while keys.len() < nkeys.max(3) {
+                keys.push(r.bytes(ksz));
+            }
+            for (ki, key) in keys.iter().enumerate() {
+                for fill in [0x11u8, 0xEEu8] {
+                    // twice per (key, fill): detects non-deterministic (uninitialised) bytes
+                    for rep in 0..2 {
+                        let o = catch(|| f(key, fill, route));
+                        match o {
+                            Ok(Some(o)) => cx.emit(json!({"ev":"zimg","type":name,"route":route.name(),"arm": if force_off {"soft"} else {"default"},
+                                "ki":ki,"fill":fill,"rep":rep,"size":o.size,"before":o.before,"after":o.after,"outcome":"ok"})),
+                            _ => cx.emit(json!({"ev":"zimg","type":name,"route":route.name(),"arm": if force_off {"soft"} else {"default"},
+                                "ki":ki,"fill":fill,"rep":rep,"size":size,"before":[],"after":[],"outcome":"panic"})),
+                        }
+                    }
+                }
+            }
+            super::special::set_force_off(false);
+            cx.emit(json!({"ev":"zend","type":name,"route":route.name(),"nkeys":keys.len(),"zeroize":cfg!(feature = "zeroize")}));
+            cx.end();
+        }
+    }
+    0
+}
